@@ -25,6 +25,23 @@ theorem binding_eq (cfg : Cfg) (s : Sig) (c : Call) (haak : cfg.alwaysKw = true)
     cyCall cfg s c = mapRes (observe cfg) (pyBind s c) :=
   cyCall_eq cfg hs hc (fun hm => Or.inl (methKind_generic_or cfg s haak hm))
 
+/-- Stated on source spellings: the keyword a caller must use for a parameter is `callerName cls src`
+    (NFKC-normalised, class-private names mangled inside a class body).  With those names the compiled function
+    and CPython bind alike; in particular a key that carries the SOURCE spelling of a mangled parameter is an
+    unknown keyword for both (second theorem). -/
+theorem binding_eq_source (cfg : Cfg) (s : SrcSig) (c : Call) (haak : cfg.alwaysKw = true)
+    (hs : s.toSig.WF) (hc : KeysDistinct c.kws) :
+    cyCall cfg s.toSig c = mapRes (observe cfg) (pyBind s.toSig c) :=
+  binding_eq cfg s.toSig c haak hs hc
+
+/-- inside a class, the mangled name of a class-private parameter differs from every unmangled spelling -/
+theorem callerName_priv_ne (c : Nat) (n : SrcName) (hp : n.shape = .priv) (m : SrcName) :
+    callerName (some c) n ≠ callerName none m := by
+  unfold callerName
+  rw [hp]
+  simp only
+  omega
+
 /-- Every configuration, with the excluded points as hypothesis: unless the METH_O shortcut is taken
     (`always_allow_keywords=False`, exactly one required non-keyword-only parameter, no `*`/`**`)
     for a parameter that is not positional-only AND the call passes keywords. -/
